@@ -242,6 +242,12 @@ def oracle_constructor(case, ctx):
         d = sig.parameters[p].default
         if case["mask"][i % len(case["mask"])]:
             v = perturb(p, d, case["choice"] + i)
+            if case.get("np_scalars") and not isinstance(v, bool):
+                # numpy scalars are what an element of np.arange / a numpy parameter grid is
+                if isinstance(v, int):
+                    v = np.int64(v)
+                elif isinstance(v, float):
+                    v = np.float64(v)
             if v is not d and not (prim(v) and prim(d) and v == d):
                 kwargs[p] = v
                 n_perturbed += 1
@@ -307,7 +313,7 @@ def oracle_constructor(case, ctx):
 @st.composite
 def constructor_cases(draw):
     return {"cls": draw(st.integers(0, 400)), "mask": draw(st.lists(st.booleans(), min_size=4, max_size=12)),
-            "choice": draw(st.integers(0, 5))}
+            "choice": draw(st.integers(0, 5)), "np_scalars": draw(st.integers(0, 3)) == 0}
 
 
 def enum_constructor_defaults(tier):
@@ -316,6 +322,8 @@ def enum_constructor_defaults(tier):
         yield {"cls": i, "mask": [False], "choice": 0}
     for i in range(n):
         yield {"cls": i, "mask": [True], "choice": 1}
+    for i in range(n):
+        yield {"cls": i, "mask": [True], "choice": 1, "np_scalars": True}
 
 
 # ------------------------------------------------------------------------------ nested parameter histories
